@@ -34,12 +34,21 @@ RULE = ("cases are drawn from random.Random(VERIF_SEED): dense tensors, sparse t
         "neighbours of powers of two and of ten from 1e-323 to 1e308, DBL_MIN/DBL_MAX, 17-significant-digit worst "
         "cases, both signs, +0.0 and -0.0); index bases 0, 1, 2 (and a few others) on hand-written files; a "
         "separate stream of malformed files (unknown header, size line of the wrong length, truncated data, ...). "
+        "Family digits: every binade boundary 2^k, 2^k -+ 1 ulp for -1074 <= k <= 1023 (quick: a random eighth), the "
+        "extremes, worst cases and sampled values, both signs, zeros, 48 per real file, alternately dense and sparse; "
+        "for each value also the neighbouring decimals / doubles and the 16-digit token, so that the model's decisions "
+        "come out both ways. "
         "A case is non-trivial when the implementation accepts the file and the object holds at least one value; "
         "distinct = distinct case hash")
 ASSUMPTIONS = [
-    "parse(fmt v) = v: a double written with '%.16e' (17 significant digits) by ndarray.tofile is read back "
-    "bit for bit by np.fromfile(sep=' ') / float(); this is a fact about libc and NumPy outside the Lean theorems "
-    "and is checked here on every value token of every exported file (count in the tags 'values_checked=...')",
+    "parse(fmt v) = v for '%.16e' (17 significant digits, written by ndarray.tofile and read back by "
+    "np.fromfile(sep=' ') / NumPy's str -> float64 item assignment) is no longer a bare assumption: C16_digits_roundtrip / "
+    "C16_digits_discharges_hypothesis prove it for every finite double (normal, subnormal, both zeros) from two "
+    "contracts of libc/NumPy - (1) the printed token is a nearest 17-digit decimal of the value, (2) the value read "
+    "is a nearest finite double of the token (ties in any way).  These two contracts are what remains outside the "
+    "Lean theorems; family 'digits' checks both exactly (Fraction arithmetic, and the model's proved-sound decision "
+    "procedures) on every binade boundary 2^k, 2^k -+ 1 ulp, -1074 <= k <= 1023, and on sampled values; the "
+    "composition parse(fmt v) = v is still checked on every value token of every exported file",
     "str(int) / '%d' and int() / np.int64() are mutually inverse on the integers that occur (checked token by token "
     "against the model's integer tokens)",
     "every line of an exported file is its tokens joined by single blanks (checked on every exported file), so "
@@ -901,6 +910,227 @@ class Degenerate(Family):
 
 
 # ----------------------------------------------------------------------------
+# digits: the two contracts behind parse(fmt v) = v (C16_digits_*)
+# ----------------------------------------------------------------------------
+from fractions import Fraction
+
+_TOKEN = re.compile(r"^(-?)([0-9])\.([0-9]+)e([+-][0-9]{2,3})$")
+_TWO1024 = Fraction(2) ** 1024
+
+
+def decompose(x):
+    """finite nonzero double -> (neg, m, e) with |x| = m * 2**e, the model's B64"""
+    b = int(bits(x))
+    ex, fr = (b >> 52) & 2047, b & ((1 << 52) - 1)
+    return (b >> 63 == 1, fr, -1074) if ex == 0 else (b >> 63 == 1, (1 << 52) + fr, ex - 1075)
+
+
+def token_decimal(tok):
+    """'-D.DDDDe+XX' -> (neg, d, k, P) with value (-1)^neg * d * 10**k and P digits printed; None if not of that form"""
+    m = _TOKEN.match(tok)
+    if not m:
+        return None
+    frac = m.group(3)
+    return (m.group(1) == "-", int(m.group(2) + frac), int(m.group(4)) - len(frac), 1 + len(frac))
+
+
+def dec_value(neg, d, k):
+    y = Fraction(d) * Fraction(10) ** k
+    return -y if neg else y
+
+
+def spec_nearest_dec(x, neg, d, k, P):
+    """Is (-1)^neg d 10^k a nearest P-digit decimal of the nonzero Fraction x?  By locating |x| between two
+    consecutive multiples of the unit 10^k0 of its decade (exact floor) - not by comparing with neighbours."""
+    if not (10 ** (P - 1) <= d < 10 ** P) or neg != (x < 0):
+        return False
+    a = abs(x)
+    k0 = len(str(a.numerator)) - len(str(a.denominator)) - P  # first guess, then adjust exactly
+    while a < Fraction(10) ** (k0 + P - 1):
+        k0 -= 1
+    while a >= Fraction(10) ** (k0 + P):
+        k0 += 1
+    u = Fraction(10) ** k0
+    lo = (a / u).numerator // (a / u).denominator
+    best = min(abs(a - lo * u), abs(a - (lo + 1) * u))
+    return abs(a - Fraction(d) * Fraction(10) ** k) == best
+
+
+def spec_nearest_bin(y, p):
+    """Is the finite nonzero double p a nearest finite double of the Fraction y?  (exact; the competitor
+    beyond the largest finite value is 2**1024, below the least subnormal it is zero)"""
+    fp = Fraction(p)
+    for q in (math.nextafter(p, math.inf), math.nextafter(p, -math.inf)):
+        fq = (_TWO1024 if q > 0 else -_TWO1024) if math.isinf(q) else Fraction(q)
+        if abs(y - fp) > abs(y - fq):
+            return False
+    return True
+
+
+class Digits(Family):
+    """The two libc/NumPy contracts that C16_digits_roundtrip turns into parse(fmt v) = v, on the real code
+    path: values are exported by export_data (ndarray.tofile(format='%.16e'), i.e. C printf) and re-imported
+    by import_data (dense: np.fromfile(sep=' '); sparse: NumPy's str -> float64 conversion on item assignment).  For every value v with printed token t
+    and re-read value p: (1) t is a nearest 17-digit decimal of v (exact, Fraction), (2) p is a nearest
+    double of t (exact, Fraction + math.nextafter), (3) the model's decision procedures nearestDecB /
+    nearestBinB and its decomposition of bit patterns agree - also on perturbed inputs (neighbouring decimal,
+    neighbouring double, the 16-digit token '%.15e' % v) so that both outcomes of each decision occur.
+    Values: every binade boundary 2^k and 2^k -+ 1 ulp for -1074 <= k <= 1023 (subnormals included), the
+    extremes, and the sampled values of the other families; both signs; zeros (dense only)."""
+    name = "digits"
+    theorems = ("C16_digits_roundtrip", "C16_digits_nearest_decision_sound", "C16_digits_nearest_bin_decision_sound",
+                "C16_digits_discharges_hypothesis", "C16_digits_16_not_enough")
+    PER = 48
+
+    def gen(self, rng, tier):
+        pool = []
+        for k in range(-1074, 1024):
+            p = math.ldexp(1.0, k)
+            pool += [(p, "pow2"), (math.nextafter(p, math.inf), "pow2+1ulp"), (math.nextafter(p, 0.0), "pow2-1ulp")]
+        pool = [(x, w) for x, w in pool if x != 0.0 and math.isfinite(x)]
+        if tier == "quick":
+            rng.shuffle(pool)
+            pool = pool[:len(pool) // 8]
+        pool += [(x, "worst") for x in _WORST] + [(0.1 + 0.2, "worst"), (1.7976931348623157e308, "max"), (5e-324, "min")]
+        pool += [(value(rng, allow_zero=False), "sampled") for _ in range(300 if tier == "quick" else 4000)]
+        pool = [(x if rng.random() < 0.6 else -x, w) for x, w in pool]
+        rng.shuffle(pool)
+        out = []
+        for i in range(0, len(pool), self.PER):
+            chunk = pool[i:i + self.PER]
+            via = "dense" if (i // self.PER) % 2 == 0 else "sparse"
+            vals = [bits(x) for x, _ in chunk]
+            what = [w for _, w in chunk]
+            if via == "dense" and (i // self.PER) % 4 == 0:
+                vals += [bits(0.0), bits(-0.0)]
+                what += ["zero", "zero"]
+            out.append({"via": via, "vals": vals, "what": what})
+        return out
+
+    @staticmethod
+    def obj(case):
+        n = len(case["vals"])
+        if case["via"] == "dense":
+            return {"t": "dense", "shape": [n], "data": case["vals"]}
+        return {"t": "sparse", "shape": [n], "subs": [[j] for j in range(n)], "vals": case["vals"]}
+
+    def evaluate(self, cases):
+        out = []
+        reqs, info = [], []
+        with Workdir() as wd:
+            for c in cases:
+                o = self.obj(c)
+                p = wd.path()
+                export_data(build(o), p)
+                lines, _ = read_lines(p)
+                toks = [ln[0] for ln in lines[3:]] if c["via"] == "dense" else [ln[-1] for ln in lines[4:]]
+                imp = do_import(p)
+                back = imp["ok"].get("data", imp["ok"].get("vals")) if "ok" in imp else None
+                info.append((toks, back, imp))
+        # requests: per nonzero value the real triple and three perturbations
+        plan = []
+        for ci, c in enumerate(cases):
+            toks, back, imp = info[ci]
+            if back is None or len(toks) != len(c["vals"]) or len(back) != len(c["vals"]):
+                continue
+            for vi, vb in enumerate(c["vals"]):
+                v = unbits(vb)
+                td = token_decimal(toks[vi])
+                if v == 0.0 or td is None or not math.isfinite(unbits(back[vi])):
+                    continue
+                neg, d, k, P = td
+                pb = back[vi]
+                t15 = "%.15e" % v
+                n15, d15, k15, P15 = token_decimal(t15)
+                variants = [("real", vb, pb, neg, d, k, P),
+                            ("dec+1", vb, pb, neg, d + 1, k, P),
+                            ("dec-1", vb, pb, neg, d - 1, k, P),
+                            ("bin-next", vb, bits(math.nextafter(unbits(pb), math.inf)), neg, d, k, P),
+                            ("p16", vb, bits(float(t15)), n15, d15, k15, P15),
+                            ("p16-orig", vb, vb, n15, d15, k15, P15)]
+                for (lab, b1, b2, ng, dd, kk, PP) in variants:
+                    plan.append((ci, vi, lab, b1, b2, ng, dd, kk, PP))
+                    reqs.append({"op": "c16.digits", "bits": b1, "pbits": b2, "P": PP, "neg": ng, "d": str(dd), "k": kk})
+        replies = drive(reqs) if reqs else []
+        by_case = {}
+        for pl, rp in zip(plan, replies):
+            by_case.setdefault(pl[0], []).append((pl, rp))
+        for ci, c in enumerate(cases):
+            toks, back, imp = info[ci]
+            tags = ["via=" + c["via"]] + sorted(set(c["what"]))
+            if back is None or len(toks) != len(c["vals"]) or len(back) != len(c["vals"]):
+                out.append(Verdict("violation", "import_data does not return the values export_data wrote", imp,
+                                   None, {"vals": c["vals"]}, tags))
+                continue
+            bad = None
+            nsub = nbound = 0
+            for vi, vb in enumerate(c["vals"]):
+                v, pv = unbits(vb), unbits(back[vi])
+                if back[vi] != vb:
+                    bad = ("violation", f"value {v!r} printed as {toks[vi]} is read back as {pv!r}")
+                    break
+                if v == 0.0:
+                    want = ("-" if vb != bits(0.0) else "") + "0.0000000000000000e+00"
+                    if toks[vi] != want:
+                        bad = ("corr", f"zero {v!r} printed as {toks[vi]}, expected {want}")
+                        break
+                    continue
+                td = token_decimal(toks[vi])
+                if td is None or td[3] != 17:
+                    bad = ("corr", f"token {toks[vi]} of {v!r} is not of the form D.DDDDDDDDDDDDDDDDe+XX")
+                    break
+                neg, d, k, P = td
+                if not spec_nearest_dec(Fraction(v), neg, d, k, 17):
+                    bad = ("corr", f"contract 1: token {toks[vi]} is not a nearest 17-digit decimal of {v!r}")
+                    break
+                if not spec_nearest_bin(dec_value(neg, d, k), pv):
+                    bad = ("corr", f"contract 2: {pv!r} is not a nearest double of the token {toks[vi]}")
+                    break
+                nsub += decompose(v)[1] < (1 << 52)
+                nbound += 1
+            model_seen = set()
+            if bad is None:
+                for (pl, rp) in by_case.get(ci, []):
+                    _, vi, lab, b1, b2, ng, dd, kk, PP = pl
+                    v, pv = unbits(b1), unbits(b2)
+                    exp_x = dict(zip(("neg", "m", "e"), decompose(v)))
+                    got_x = rp.get("x") or {}
+                    if (got_x.get("neg"), got_x.get("m"), got_x.get("e"), got_x.get("wf")) != \
+                            (exp_x["neg"], str(exp_x["m"]), exp_x["e"], True):
+                        bad = ("corr", f"model decomposition of {v!r}: {got_x} vs {exp_x}")
+                        break
+                    want_dec = spec_nearest_dec(Fraction(v), ng, dd, kk, PP)
+                    want_bin = None if (pv == 0.0 or not math.isfinite(pv)) else spec_nearest_bin(dec_value(ng, dd, kk), pv)
+                    if rp.get("nearest_dec") != want_dec:
+                        bad = ("corr", f"[{lab}] nearest {PP}-digit decimal of {v!r}: d={dd} k={kk}: model says "
+                                       f"{rp.get('nearest_dec')}, exact arithmetic says {want_dec}")
+                        break
+                    if rp.get("nearest_bin") != want_bin:
+                        bad = ("corr", f"[{lab}] nearest double of d={dd} k={kk}: {pv!r}: model says "
+                                       f"{rp.get('nearest_bin')}, exact arithmetic says {want_bin}")
+                        break
+                    model_seen.add(f"model:dec={want_dec}")
+                    model_seen.add(f"model:bin={want_bin}")
+                    if lab == "p16" and b2 != b1:
+                        model_seen.add("16-digits-lose-the-value")
+            tags += sorted(model_seen) + ["subnormal"] * min(nsub, 1) + ["values_two_contracts_checked"] * nbound
+            if bad is not None:
+                out.append(Verdict(bad[0], bad[1], {"tokens": toks, "back": back}, None, {"vals": c["vals"]}, tags))
+            else:
+                out.append(Verdict("ok", "", {"back": back}, {"back": c["vals"]}, {"back": c["vals"]}, tags, nontrivial=nbound > 0))
+        return out
+
+    def shrink(self, case):
+        n = len(case["vals"])
+        if n > 1:
+            for lo, hi in ((0, n // 2), (n // 2, n)):
+                yield {"via": case["via"], "vals": case["vals"][lo:hi], "what": case["what"][lo:hi]}
+            for i in range(n):
+                yield {"via": case["via"], "vals": [case["vals"][i]], "what": [case["what"][i]]}
+
+
+
+# ----------------------------------------------------------------------------
 # shrinking
 # ----------------------------------------------------------------------------
 def shrink_obj(o):
@@ -960,4 +1190,4 @@ def shrink_obj(o):
 
 
 def families():
-    return [Dense(), Sparse(), Ktensor(), Matrix(), ValueSweep(), IndexBase(), Malformed(), Degenerate()]
+    return [Dense(), Sparse(), Ktensor(), Matrix(), ValueSweep(), IndexBase(), Malformed(), Degenerate(), Digits()]
